@@ -136,6 +136,7 @@ func runC05Script(rt *rapid.T) {
 	closedAtCount := -1 // number of notifications when Close returned (no more until the next Open)
 	changes, sawDeselect, sawT7, sawCloseRace := 0, false, false, false
 	wedgedOnce := false
+	lingeredOnce := false
 
 	want := func() hsms.ConnState {
 		switch {
@@ -246,6 +247,9 @@ func runC05Script(rt *rapid.T) {
 			}
 			if selected && !wedgedOnce {
 				ops = append(ops, "wedge-drop-reconnect")
+			}
+			if selected && !lingeredOnce {
+				ops = append(ops, "wedged-writer")
 			}
 		}
 		op := rapid.SampledFrom(ops).Draw(rt, "op")
@@ -376,6 +380,48 @@ func runC05Script(rt *rapid.T) {
 			applySel()
 			sync("the next generation was selected")
 			releaseWedge()
+			sawDeselect = true // counts as a non-trivial history
+		case "wedged-writer":
+			// A send of THIS generation is stuck in its write (the peer stopped reading); the link
+			// dies, but the stuck write reports its error only 400 ms later - after the next
+			// generation has come up and been selected. That late failure belongs to the dead
+			// generation: it must not take the new session down.
+			lingeredOnce = true
+			w.lmu.Lock()
+			libEnd := w.libConns[len(w.libConns)-1]
+			w.lmu.Unlock()
+			libEnd.SetWriteLinger(400 * time.Millisecond)
+			p.C.SetInboundWindow(0)
+			p.C.StallInbound(true)
+			stuck := make(chan error, 1)
+			go func() {
+				ctx, cancel := ctxT(5 * time.Second)
+				defer cancel()
+				_, e := w.conn.SendDataMessage(ctx, 1, 1, false, secs2.A("stuck in the write"))
+				stuck <- e
+			}()
+			synctest.Wait()
+			unreachable()
+			p.C.Reset()
+			_ = p.C.Close()
+			linkLost()
+			sync("the link died under a stuck write")
+			connect()
+			_ = p.Send(sel)
+			if active {
+				_ = p.Send(e37.Control(e37.SelectRsp, 0xffff, 0, 0, openSel))
+				hasOpenSel = false
+			}
+			applySel()
+			sync("the next generation was selected while the old write is still stuck")
+			select {
+			case e := <-stuck:
+				logf("the stuck write had already returned: %v", e)
+			case <-time.After(500 * time.Millisecond):
+				fail("the stuck write never returned")
+			}
+			time.Sleep(50 * time.Millisecond)
+			sync("the stuck write of the dead generation has reported its error")
 			sawDeselect = true // counts as a non-trivial history
 		case "stall-flap":
 			// a handler that stops draining while the session flaps more often than the 16-slot queue holds
